@@ -76,9 +76,10 @@ MANIFEST = {
                "C19_adaptor_semantic_calibration (THE two shipped class diagrams as semantic diagrams, Gen/UmlSemShipped.v regenerated from blob.xml: "
                "157 / 357 meaningful and 461 / 999 inert properties; encode_project reproduces the shipped rows BYTE FOR BYTE and BOTH lie in "
                "sdiagram_ok: the read-back theorem speaks about the shipped project itself), C19_adaptor_source_shape (literal pins, SplitOutsideQuotes "
-               "included), C19_adaptor_name_refuted (operator< is read as operator: K-C19-7). WRITER ASSUMPTION: Model/UmlWriter.v + Model/UmlSem.v tree_of (how Visual "
-               "Paradigm lays a class diagram out), calibrated on the one shipped project at the structured-blob level. OUTSIDE THE SEMANTIC DOMAIN: names of classes / packages / members with ':' (association names may hold colons) or with the "
-               "characters mass_replace deletes (K-C19-7); inert properties whose keys collide with a key the reader looks up in that kind of "
+               "included), C19_adaptor_operator_names (operator<, operator(), operator==, a:b are read back under their names: K-C19-7 repaired; element NAMES are any printable text without double quote, backslash, apostrophe and ';'). WRITER ASSUMPTION: Model/UmlWriter.v + Model/UmlSem.v tree_of (how Visual "
+               "Paradigm lays a class diagram out), calibrated on the one shipped project at the structured-blob level. OUTSIDE THE SEMANTIC DOMAIN: names of classes / packages / referenced elements with ':' or ',' (they are joined into qualified type "
+               "names; member and association names may hold = < > ( ) , : since the repair of K-C19-7); values with the characters mass_replace still "
+               "deletes (K-C19-10); inert properties whose keys collide with a key the reader looks up in that kind of "
                "element (they would not be inert); rows whose bytes hold an apostrophe but no double quote. TIES: the semantic diagram built from an object graph means that object graph (harness twin vs "
                "rdiagram_of); the REAL adaptor on the SHIPPED file = the extracted rdiagram_of of the shipped semantic diagrams, and the extracted "
                "encode_project of them = the shipped rows; the extracted "
@@ -92,7 +93,7 @@ MANIFEST = {
             "C#: modelled and proved like C++ (file set, realised operations, every operation once, namespace wrap), observed with a tokenizer; "
             "NOT checked: that a C# compiler accepts the output (none available) -- e.g. whether 'override' on a method implementing an INTERFACE "
             "member is accepted is outside what is proved or observed. K-C19-8 (every 'virtual' in a realised C# method became 'override', also "
-            "inside names) is repaired (1e812e6; corpus/C19/cs_virtual_word.json); K-C19-9 (A::B.csproj) is known. Known findings K-C19-*.",
+            "inside names) is repaired (1e812e6; corpus/C19/cs_virtual_word.json); K-C19-9 (A::B.csproj) is known. K-C19-7 (names lost = < > ; ( ) and were cut at colons) is repaired (fb98a7e; corpus/C19/operator_names.json); what remains of mass_replace concerns values: K-C19-10. Known findings K-C19-*.",
 }
 MANIFEST["text"] += " " + MANIFEST.pop("adaptor")
 RULE = ("the two shipped class diagrams and mutants of them (1-4 random edits of the parsed object graph: rename/remove/retype classes, "
@@ -101,8 +102,8 @@ RULE = ("the two shipped class diagrams and mutants of them (1-4 random edits of
         "generator produced at least one class with operations; distinct = distinct (diagram, edits, options)")
 ASSUMPTIONS = [
     "operation visibilities are public/protected/private: a theorem for every diagram read from a project file (C19_adaptor_visibilities); a 'package' operation exists only in in-memory mutants (K-C19-4)",
-    "adaptor (sdiagram_ok): names and ids are plain text (printable ASCII without = < > ; \\ \" ' ( ) , { } and without leading/trailing blanks), values likewise but ',' allowed unless nothing else is left (documentation: any quoted text without '=' and '<'), no ':' in ids and element names (association names may hold them), inert properties (any scalar / reference list / owned elements / free text in the text domain) whose keys are none of the keys the reader looks up in that kind of element and whose owned elements are not of a member type, line breaks CR LF or LF per element, no property key written twice, type names unchanged by CleanModifiersFromType, referenced ids known, every element drawn once, a class on at most one package path; association ends attached to known paths, ids / names of associations and ends not containing the reader's probe words (documentation_plain / readOnly)",
-    "adaptor (text domain wf_node / nbq_node / quote_ok): free text only inside closed double-quoted values; no brace in ids, names, types, keys, reference ids and unquoted values; no ':' in ids and names (K-C19-7)",
+    "adaptor (sdiagram_ok): ids and the names of classes / packages / referenced elements are plain text (printable ASCII without = < > ; \\ \" ' ( ) , { } and without leading/trailing blanks), names of operations / attributes / parameters / literals / associations any printable text without \" \\ ' ; { }, values likewise but ',' allowed unless nothing else is left (documentation: any quoted text without '=' and '<'), no ':' in ids and element names (association names may hold them), inert properties (any scalar / reference list / owned elements / free text in the text domain) whose keys are none of the keys the reader looks up in that kind of element and whose owned elements are not of a member type, line breaks CR LF or LF per element, no property key written twice, type names unchanged by CleanModifiersFromType, referenced ids known, every element drawn once, a class on at most one package path; association ends attached to known paths, ids / names of associations and ends not containing the reader's probe words (documentation_plain / readOnly)",
+    "adaptor (text domain wf_node / nbq_node / quote_ok): free text only inside closed double-quoted values; no brace in ids, names, types, keys, reference ids and unquoted values; no ':' in ids; names: any printable text without \" \\ ' ;",
     "no realisation cycle among pure virtual interfaces (C19_cycle_refuted: RecursionError otherwise)",
     "files_hyp: class names non-empty without '.' and '/', namespace not ending in a separator, distinct output paths (two classes of one name in different packages collide when namespace folders are off: K-C19-5 is exactly distinct_paths = false)",
     "multiplicity 1 of a definition: once_hyp (no signature twice in the class, none twice among the operations of the interfaces reached, every path counted) -- evaluated per class on every input; where it fails an operation reached through two realisation paths is emitted twice (K-C19-1b); an operation both declared in the class and realised is emitted once since the fix (K-C19-1)",
@@ -608,6 +609,11 @@ def semantic_ties(ctx):
         try:
             if i >= 2:
                 us.mutate(rng, cd, rng.randint(1, 3))
+            if i % 3 == 2:
+                # member names with the characters the reader used to delete (K-C19-7 repaired): inside the domain now
+                ops = [o for c in cd.classes.values() for o in c.OPERATIONS]
+                if ops:
+                    rng.choice(ops).NAME = rng.choice(["operator<", "operator()", "operator==", "Get:Set", "f, g", "a = b"])
             S, name = ub.semantic_value(rng, cd)
         except ub.Unencodable as e:
             ctx.count("semantic_unencodable:" + str(e).split(" ")[0])
@@ -666,28 +672,58 @@ def shipped_semantic_tie(ctx):
         ctx.count("shipped_semantic_in_domain")
 
 
+SEPARATOR_NAMES = [b"operator<", b"operator()", b"operator==", b"operator=", b"a:b", b"f, g"]
+
+
 def separator_probe(ctx):
-    """outside the domain of the adaptor theorem (C19_adaptor_name_refuted): an operation called operator< in a project file"""
+    """K-C19-7 (repaired): the NAME of an operation in a project file is read as it is written between its quotes -- operator<,
+    operator(), operator==, a name with a colon or a comma (C19_adaptor_operator_names); returns the failures"""
+    fails = []
+    for wanted in SEPARATOR_NAMES:
+        cd = us.load("TestClassDiagram")
+        target = next(c for c in cd.classes.values() if c.OPERATIONS and not c.PURE_VIRTUAL_INTERFACE)
+        target.OPERATIONS[0].NAME = "operatorLT"
+        try:
+            db, name = ub.project_rows(random.Random(7), cd)
+        except ub.Unencodable:
+            return fails
+        ms = [m[:4] + (m[4].replace(b'"operatorLT"', b'"' + wanted + b'"'),) for m in db[2]]
+        with kj.scratch("kjv-umlsep-") as d:
+            path = ub.project_path(d)
+            vs.write_project(path, (db[0], db[1], ms))
+            real, cd2, err = ub.real_load(path, name)
+        if ctx.km is not None and real != ctx.km.call("ub_load", vs.db_v((db[0], db[1], ms)), name):
+            ctx.tie_broken("correspondence ExtractClassDiagram vs UmlBlob.load_cdiagram (operation called %s)" % wanted.decode(), {"error": err})
+        names = [o.NAME for c in (cd2.classes.values() if cd2 else []) for o in c.OPERATIONS]
+        ctx.case(("adaptor-separator-probe", wanted))
+        if wanted.decode() not in names:
+            fails.append("an operation drawn as %s is read from the project file as %r (%s)" % (
+                wanted.decode(), [n for n in names if n.startswith(wanted.decode()[:1])][:2], err))
+    return fails
+
+
+def value_probe(ctx):
+    """what remains of the deletions of mass_replace (known finding K-C19-10): a default VALUE drawn as f(1) is read as f1"""
     cd = us.load("TestClassDiagram")
-    target = next(c for c in cd.classes.values() if c.OPERATIONS and not c.PURE_VIRTUAL_INTERFACE)
-    target.OPERATIONS[0].NAME = "operatorLT"
+    target = next(c for c in cd.classes.values() if any(o.PARAMETERS for o in c.OPERATIONS) and not c.PURE_VIRTUAL_INTERFACE)
+    op = next(o for o in target.OPERATIONS if o.PARAMETERS)
+    op.PARAMETERS[0]["defaultvalue"] = "DEFAULTHERE"
     try:
-        db, name = ub.project_rows(random.Random(7), cd)
+        db, name = ub.project_rows(random.Random(13), cd)
     except ub.Unencodable:
-        return
-    ms = [m[:4] + (m[4].replace(b'"operatorLT"', b'"operator<"'),) for m in db[2]]
-    with kj.scratch("kjv-umlsep-") as d:
+        return []
+    if not any(b'"DEFAULTHERE"' in m[4] for m in db[2]):
+        return []
+    ms = [m[:4] + (m[4].replace(b'"DEFAULTHERE"', b'"f(1)"'),) for m in db[2]]
+    with kj.scratch("kjv-umlval-") as d:
         path = ub.project_path(d)
         vs.write_project(path, (db[0], db[1], ms))
         real, cd2, err = ub.real_load(path, name)
     if ctx.km is not None and real != ctx.km.call("ub_load", vs.db_v((db[0], db[1], ms)), name):
-        ctx.tie_broken("correspondence ExtractClassDiagram vs UmlBlob.load_cdiagram (operation called operator<)", {"error": err})
-    names = [o.NAME for c in (cd2.classes.values() if cd2 else []) for o in c.OPERATIONS]
-    ctx.case(("adaptor-separator-probe",))
-    if "operator<" not in names:
-        ctx.violation("an operation drawn as operator< is read from the project file as %r" % [n for n in names if n.startswith("operator")][:1],
-                      {"finding_key": "uml-adaptor:name-with-separator", "finding_class": "uml-adaptor:name-with-separator", "label": "TestClassDiagram",
-                       "mut_seed": 0, "nedits": 0, "separator_probe": True})
+        ctx.tie_broken("correspondence ExtractClassDiagram vs UmlBlob.load_cdiagram (default value f(1))", {"error": err})
+    ctx.case(("adaptor-value-probe",))
+    vals = [p["defaultvalue"] for c in (cd2.classes.values() if cd2 else []) for o in c.OPERATIONS for p in o.PARAMETERS if p["defaultvalue"].startswith("f")]
+    return [] if "f(1)" in vals else ["a default value drawn as f(1) is read from the project file as %r" % vals[:1]]
 
 
 INJECTIONS = [b'note; abstract=T', b'note; stereotypes=<IF0000000000000>', b'css a { color: red } b {x:y:Operation}', b'a }; abstract=T; {']
@@ -852,7 +888,14 @@ def run(ctx):
         printer_tie(ctx)
         semantic_ties(ctx)
         shipped_semantic_tie(ctx)
-    separator_probe(ctx)
+    for detail in separator_probe(ctx):
+        ctx.violation(detail, {"finding_key": "uml-adaptor:name-with-separator", "finding_class": "uml-adaptor:name-with-separator", "label": "TestClassDiagram",
+                               "mut_seed": 0, "nedits": 0, "separator_probe": True})
+        break
+    for detail in value_probe(ctx):
+        ctx.violation(detail, {"finding_key": "uml-adaptor:value-with-separator", "finding_class": "uml-adaptor:value-with-separator", "label": "TestClassDiagram",
+                               "mut_seed": 0, "nedits": 0, "value_probe": True})
+        break
     for detail in injection_probe(ctx):
         ctx.violation(detail, {"finding_key": "uml-adaptor:free-text-injection", "finding_class": "uml-adaptor:free-text-injection", "label": "TestClassDiagram",
                                "mut_seed": 0, "nedits": 0, "injection_probe": True})
@@ -910,9 +953,9 @@ def replay(ctx, data):
     if data.get("injection_probe"):
         return not injection_probe(ctx)
     if data.get("separator_probe"):
-        before = len(ctx.violations) + len(ctx.known)
-        separator_probe(ctx)
-        return len(ctx.violations) + len(ctx.known) == before
+        return not separator_probe(ctx)
+    if data.get("value_probe"):
+        return not value_probe(ctx)
     cd, edits = build(data["label"], data["mut_seed"], data["nedits"])
     if data["mut_seed"] == -1:
         us.add_cycle(cd)
